@@ -1,5 +1,5 @@
 """C19 - Voice sets and interpolation weights are validated."""
-from ..expr import ExprBuilder, show, stores, root_of, walk, mut_arg_calls, to_poly
+from ..expr import ExprBuilder, show, stores, root_of, walk, mut_arg_calls, to_poly, success_value
 from .. import paths
 from . import common as cm
 
@@ -35,6 +35,63 @@ def contains_call(e, suffix, arg_pred=None):
             if arg_pred is None or arg_pred(x[2]):
                 return True
     return False
+
+
+def accessor_agreement(ctx, p, rule):
+    """set_X writes / get_X returns field X (element stream_index for the per-stream ones) and the
+    index used is the stream_index parameter: shared by C19-R5 (validation) and C10-R3 (which
+    weight vector each quantity is blended with)"""
+    for name, (field, indexed) in SETTERS.items():
+        b = cm.body_or_fail(ctx, p, rule, IW + "InterporationWeight::" + name)
+        if b is None:
+            continue
+        eb = ExprBuilder(b)
+        sts = [s for s in stores(b, eb) if is_self(s[4])]
+        want = [field, "[]"] if indexed else [field]
+        for bb, i, st, tgt, root, chain, val in sts:
+            idx_ok = not indexed or (tgt[0] == "idx" and show(tgt[2]) == "stream_index")
+            if chain == want and idx_ok:
+                ctx.ok(rule, "%s writes self.%s%s" % (name, field, "[stream_index]" if indexed else ""), cm.loc_of(st["span"]))
+            else:
+                ctx.fail(rule, b.path, "store target", "%s writes %s, expected self.%s%s" % (name, show(tgt)[:80], field, "[stream_index]" if indexed else ""), cm.loc_of(st["span"]))
+        if not sts:
+            ctx.fail(rule, b.path, "no store", "%s stores nothing" % name, b.loc())
+    for name, (field, indexed) in GETTERS.items():
+        b = cm.body_or_fail(ctx, p, rule, IW + "InterporationWeight::" + name)
+        if b is None:
+            continue
+        ret = ExprBuilder(b).local(0)
+        r, ch = root_of(ret)
+        want = [field, "[]"] if indexed else [field]
+        idx_ok = not indexed or (ret[0] == "idx" and show(ret[2]) == "stream_index")
+        if is_self(r) and ch == want and idx_ok:
+            ctx.ok(rule, "%s returns self.%s%s" % (name, field, "[stream_index]" if indexed else ""), b.loc())
+        else:
+            ctx.fail(rule, b.path, "return value", "%s returns %s, expected self.%s%s" % (name, show(ret)[:80], field, "[stream_index]" if indexed else ""), b.loc())
+
+
+def helper_guards(p, call):
+    """does the single Ok return of local helper `call` = h(self, .., weight, ..) sit behind the success
+    edges of Weights::new(<its weight parameter>) and check_length(<that value>, self.nvoices)?"""
+    hb = p.bodies[call[1]]
+    heb = ExprBuilder(hb)
+    wpos = [i + 1 for i, a in enumerate(call[2]) if a[0] == "arg" and not is_self(a)]
+    oks = [(bb, e) for bb, e, item in paths.return_exprs(hb, heb) if paths.is_ok(e)]
+    if len(oks) != 1 or len(wpos) != 1 or not any(is_self(a) for a in call[2]):
+        return False, False
+    bb, e = oks[0]
+    gs = paths.guards(hb, bb, heb)
+    wn = lambda args: len(args) == 1 and args[0][0] == "arg" and args[0][1] == wpos[0]
+
+    def cl_ok(args):
+        if len(args) != 2:
+            return False
+        from_new = any(x[0] == "call" and x[1] == IW + "Weights::new" and wn(x[2]) for x in heb.expand_all(args[0]))
+        return from_new and show(args[1]) == "self.nvoices"
+    payload_new = any(x[0] == "call" and x[1] == IW + "Weights::new" and wn(x[2]) for x in heb.expand_all(e))
+    g_new = payload_new and any(g[0] == "ok" and contains_call(g[1], IW + "Weights::new", wn) for g in gs)
+    g_len = payload_new and any(g[0] == "ok" and contains_call(g[1], IW + "Weights::check_length", cl_ok) for g in gs)
+    return g_new, g_len
 
 
 def run(ctx):
@@ -283,6 +340,13 @@ def run(ctx):
         # value stored = Ok payload of Weights::new(weight)
         wn = lambda args: len(args) == 1 and args[0][0] == "arg" and args[0][1] == warg
         val_all = list(eb.expand_all(val))
+        # a local validating helper `fn h(&self, weight) -> Result<Weights, _>` is looked through
+        helper = None
+        for x in val_all:
+            if x[0] == "call" and x[1] in p.bodies and x[1] != IW + "Weights::new" and p.bodies[x[1]].kind != "Closure" and any(wn((a,)) for a in x[2]):
+                helper = x
+        if helper is not None:
+            val_all = val_all + list(walk(success_value(p, val, keep=(IW + "Weights::new",))))
         if any(x[0] == "call" and x[1] == IW + "Weights::new" and wn(x[2]) for x in val_all):
             ctx.ok("C19-R4", "%s stores the value produced by Weights::new(weight)" % name, cm.loc_of(st["span"]))
         else:
@@ -297,6 +361,9 @@ def run(ctx):
             from_new = any(x[0] == "call" and x[1] == IW + "Weights::new" for x in a0)
             return from_new and show(args[1]) == "self.nvoices"
         g_len = any(g[0] == "ok" and contains_call(g[1], IW + "Weights::check_length", cl_ok) for g in gs)
+        if helper is not None and any(g[0] == "ok" and contains_call(g[1], helper[1]) for g in gs):
+            hn, hl = helper_guards(p, helper)
+            g_new, g_len = g_new or hn, g_len or hl
         if g_new:
             ctx.ok("C19-R4", "%s: store dominated by the success edge of Weights::new(weight)" % name, cm.loc_of(st["span"]))
         else:
